@@ -133,9 +133,10 @@ void ppMinPoly(word b[], const word a[], size_t l, void* stack)
 	word* db = da + m;
 	stack = db + m + n + 2;
 	// pre
-	ASSERT(wwIsValid(b, m) && wwIsValid(a, 2 * n));
+	ASSERT(wwIsValid(b, m) && wwIsValid(a, W_OF_B(2 * l)));
 	// aa <- a
-	wwCopy(aa, a, 2 * n);
+	wwCopy(aa, a, W_OF_B(2 * l));
+	wwSetZero(aa + W_OF_B(2 * l), 2 * n - W_OF_B(2 * l));
 	wwTrimHi(aa, 2 * n, 2 * l);
 	na = wwWordSize(aa, 2 * n);
 	// bb <- x^{2l}
